@@ -42,6 +42,9 @@ enum Edge {
     InCalledFnBlock,
     InCalledFnEarlyRet,
     InCalledClosureOfFn,
+    InBlobMethodCalledAtOnce,
+    InMethodOfGlobalBlob,
+    AssignInMethodOfGlobalBlob,
     /// WRAPPED[k] inside a function that the initialiser calls
     ViaFn(u8),
 }
@@ -49,7 +52,7 @@ enum Edge {
 const KINDS: [Edge; 6] = [Edge::Read, Edge::ReadInCalledFn, Edge::ReadInStoredFn, Edge::AssignInCalledFn, Edge::OpAssignInCalledFn, Edge::BlobField];
 /// expression-level wrapped forms that are also tried inside a called function (ViaFn)
 const VIA_FN: [u8; 13] = [0, 1, 2, 3, 4, 5, 6, 7, 8, 9, 10, 15, 16];
-const STMT_IN_FN: [Edge; 4] = [Edge::InCalledFnLoopCondition, Edge::InCalledFnBlock, Edge::InCalledFnEarlyRet, Edge::InCalledClosureOfFn];
+const STMT_IN_FN: [Edge; 7] = [Edge::InCalledFnLoopCondition, Edge::InCalledFnBlock, Edge::InCalledFnEarlyRet, Edge::InCalledClosureOfFn, Edge::InBlobMethodCalledAtOnce, Edge::InMethodOfGlobalBlob, Edge::AssignInMethodOfGlobalBlob];
 const WRAPPED: [Edge; 18] = [
     Edge::InThen, Edge::InElse, Edge::InCondition, Edge::InCaseScrutinee, Edge::InCaseArm, Edge::InCaseElse, Edge::InTuple, Edge::InList, Edge::InCallArgument,
     Edge::InUnary, Edge::InAndRhs, Edge::InCalledFnElseBranch, Edge::InCalledFnLoop, Edge::InCalledFnNestedCall, Edge::ThroughFunctionAlias, Edge::InVariantPayload,
@@ -154,6 +157,21 @@ fn term_for(k: Edge, i: usize, j: usize, helpers: &mut Vec<Top>) -> Option<Expr>
             let name = format!("er{}{}", i, j);
             helpers.push(top_fn(&name, vec![], RetAnn::Ty(Ty::Int), vec![Stmt::Expr(if_e(Expr::Bool(true), vec![Stmt::Ret(Some(var(&g(j))))], None)), Stmt::Expr(int(0))]));
             callv(&name, vec![])
+        }
+        Edge::InBlobMethodCalledAtOnce => {
+            if !helpers.iter().any(|t| matches!(t, Top::Blob { name, .. } if name == "PM")) {
+                helpers.push(Top::Blob { name: "PM".into(), fields: vec![("f".into(), Ty::Fn(vec![], Box::new(Ty::Int)))] });
+            }
+            call(field(Expr::Paren(Box::new(Expr::Blob("PM".into(), vec![("f".into(), lambda(vec![], RetAnn::Ty(Ty::Int), vec![Stmt::Expr(var(&g(j)))]))]))), "f"), vec![])
+        }
+        Edge::InMethodOfGlobalBlob | Edge::AssignInMethodOfGlobalBlob => {
+            if !helpers.iter().any(|t| matches!(t, Top::Blob { name, .. } if name == "PM")) {
+                helpers.push(Top::Blob { name: "PM".into(), fields: vec![("f".into(), Ty::Fn(vec![], Box::new(Ty::Int)))] });
+            }
+            let inst = format!("inst{}{}", i, j);
+            let body = if k == Edge::InMethodOfGlobalBlob { vec![Stmt::Expr(var(&g(j)))] } else { vec![assign(&g(j), int(70 + i as i64)), Stmt::Expr(int(100))] };
+            helpers.push(Top::Def { name: inst.clone(), mutable: false, ty: None, value: Expr::Blob("PM".into(), vec![("f".into(), lambda(vec![], RetAnn::Ty(Ty::Int), body))]) });
+            call(field(var(&inst), "f"), vec![])
         }
         Edge::InCalledClosureOfFn => {
             let name = format!("cl{}{}", i, j);
@@ -440,7 +458,7 @@ pub fn run(run: &mut Run) {
             qualify(&mut other_items, &main_defs, "main");
             let other_text_of = |perm: &Vec<usize>| -> String {
                 let tops: Vec<Top> = perm.iter().map(|k| other_items[*k].clone()).collect();
-                print_program(&Program { tops }).text.replace("P {", "main.P {").replace("(V.", "(main.V.").replace(" V.", " main.V.")
+                print_program(&Program { tops }).text.replace("P {", "main.P {").replace("(PM {", "(main.PM {").replace("(V.", "(main.V.").replace(" V.", " main.V.")
             };
             let mut main_items: Vec<Top> = b.main.iter().filter(|t| !matches!(t, Top::Def { name, .. } if name == "g1")).cloned().collect();
             main_items.extend(b.helpers.iter().cloned());
@@ -489,7 +507,7 @@ pub fn run(run: &mut Run) {
         };
         let kinds: Vec<String> = lab.edges.iter().map(|e| match e.2 { Edge::ViaFn(w) => format!("ViaFn({:?})", WRAPPED[w as usize]), k => format!("{:?}", k) }).collect();
         let mut preds: Vec<String> = vec![];
-        if lab.edges.iter().any(|e| matches!(e.2, Edge::AssignInCalledFn | Edge::OpAssignInCalledFn)) {
+        if lab.edges.iter().any(|e| matches!(e.2, Edge::AssignInCalledFn | Edge::OpAssignInCalledFn | Edge::AssignInMethodOfGlobalBlob)) {
             preds.push("initialiser-calls-function-that-assigns-another-global".into());
         }
         if accepted != 0 && accepted != results.len() {
@@ -537,7 +555,7 @@ pub fn run(run: &mut Run) {
     });
     run.stats = Stats::merge_all(accs);
     entry_family(&mut run.stats);
-    run.rule = "programs with 3 (thorough: also 4) mutable globals whose initialisers are related by up to k edges, each edge one of: read, read inside a called function, read inside a function that is only stored, assignment / compound assignment inside a called function, blob literal field (up to k edges), or a read wrapped in one of 35 further forms (then / else / condition, case scrutinee / arm / else, tuple, list, call argument, unary, and-operand, variant payload, index, immediately called lambda - each directly in the initialiser and inside a function it calls; else-branch / loop body / loop condition / nested block / early ret / inner closure / nested call inside a called function, function alias; alone and combined with one plain read); every permutation of the top-level statements (blob declaration, globals, start) x helper functions before / after, plus the same program with one global moved to an imported file (cyclic import) under every order of that file and a sample of main's orders; plus a three-file project whose modules define their own `start` and `g` under every order of each file's statements (4! x 3! x 4! orders); non-trivial = every labelling that is not inherently order-dependent; distinct by edge labelling".into();
+    run.rule = "programs with 3 (thorough: also 4) mutable globals whose initialisers are related by up to k edges, each edge one of: read, read inside a called function, read inside a function that is only stored, assignment / compound assignment inside a called function, blob literal field (up to k edges), or a read wrapped in one of 38 further forms (then / else / condition, case scrutinee / arm / else, tuple, list, call argument, unary, and-operand, variant payload, index, immediately called lambda - each directly in the initialiser and inside a function it calls; else-branch / loop body / loop condition / nested block / early ret / inner closure / nested call inside a called function, a method of a blob literal called at once, a read / an assignment in a method of a global blob instance, function alias; alone and combined with one plain read); every permutation of the top-level statements (blob declaration, globals, start) x helper functions before / after, plus the same program with one global moved to an imported file (cyclic import) under every order of that file and a sample of main's orders; plus a three-file project whose modules define their own `start` and `g` under every order of each file's statements (4! x 3! x 4! orders); non-trivial = every labelling that is not inherently order-dependent; distinct by edge labelling".into();
     run.bounds = json!({"globals": if thorough {"3 with <=3 edges, 4 with <=2 edges"} else {"3 with <=2 edges"}, "labelings": labs.len(), "edge_kinds": KINDS.iter().chain(WRAPPED.iter()).chain(STMT_IN_FN.iter()).map(|k| format!("{:?}", k)).chain(VIA_FN.iter().map(|w| format!("ViaFn({:?})", WRAPPED[*w as usize]))).collect::<Vec<_>>()});
     run.assumptions = vec![
         "reference: RefSylt under every order of the value globals; orders that read or assign an uninitialised global are invalid; if the valid orders disagree the program is inherently order-dependent and excluded; if no order is valid the initialisers are cyclic".into(),
